@@ -813,4 +813,20 @@ example : exQuorum.status = .open ∧ exQuorum.expires.isExpired ⟨100, 0⟩ = 
     libPasses exAllAbstain.threshold exAllAbstain.totalWeight exAllAbstain.votes = false := by decide
 example : nineDecimals exQuorum.threshold := ⟨⟨600000000, by decide⟩, ⟨400000000, by decide⟩⟩
 
+/-- **`is_rejected` is NOT complete, also for `AbsoluteCount`** (and likewise for `AbsolutePercentage`): it counts only No
+votes, so abstentions and vetoes that make passing impossible do not trigger it.  Total 10, count 6, five abstained:
+no completion of the outstanding 5 votes can reach 6 Yes, yet `is_rejected` is false (the proposal is reported Open
+until it expires, then Rejected).  So a `rejected_complete` converse of `rejected_sound` is false of the code for
+every threshold kind — not only because the quorum is ignored. -/
+theorem rejected_not_complete_count :
+    (∀ c : Votes, cast (plus ⟨0, 0, 5, 0⟩ c) ≤ 10 → libPasses (.absoluteCount 6) 10 (plus ⟨0, 0, 5, 0⟩ c) = false) ∧
+    libRejectsAt (.absoluteCount 6) 10 ⟨0, 0, 5, 0⟩ false = false ∧
+    isRejected ⟨.open, .absoluteCount 6, 10, ⟨0, 0, 5, 0⟩, .atHeight 100⟩ ⟨50, 0⟩ = .ok false ∧
+    currentStatus ⟨.open, .absoluteCount 6, 10, ⟨0, 0, 5, 0⟩, .atHeight 100⟩ ⟨50, 0⟩ = .ok .open := by
+  refine ⟨?_, by decide, by decide, by decide⟩
+  intro c hc
+  simp only [libPasses, libPassesAt, plus, Bool.and_eq_false_iff, decide_eq_false_iff_not]
+  simp only [cast, plus] at hc
+  right; omega
+
 end CwPlus.Props.C04
